@@ -211,6 +211,13 @@ class Effects:
         if "env" in kinds:
             return "env", "/".join(kinds)
         if "percall" in kinds:
+            # a per-call *type* held by a shared object is shared all the same: follow the bindings of a local root
+            if isinstance(root, ast.Name) and _depth < 5 and sc.is_local(root.id):
+                for s_ in self.binding_sources(f, root.id):
+                    if isinstance(s_, (ast.Attribute, ast.Subscript)):
+                        cat, det = self.classify(f, s_, _depth + 1)
+                        if cat.startswith(("shared", "global")):
+                            return cat, "via binding: " + det
             return "percall", "/".join(kinds)
         if isinstance(root, ast.Name) and self.fresh_local(f, root.id):
             return "local", "/".join(kinds)
